@@ -14,9 +14,14 @@
 (*                                          compiled during the call        *)
 (*   LFinish {res, comp, items}             finish                          *)
 (*   comp = <<[final, fout, trans: <<<<inp, out, addr>>..>>, kind, addr]>>  *)
-(* The node cache is not replayed (its behaviour is a resolution of the     *)
-(* specification's nondeterminism that the event states: kind 1 = hit at    *)
-(* addr, 2 = emitted at addr); the cache properties are Trace_Build's.      *)
+(* The node cache is a resolution of the specification's nondeterminism     *)
+(* that the event states (kind 1 = hit at addr, 2 = emitted at addr); the   *)
+(* cache properties are Trace_Build's.  For caches of ONE row (no hash      *)
+(* involved) and for no cache at all the replacement policy of the code is  *)
+(* replayed too: `mru` holds the cached nodes, most recently used first; a  *)
+(* node is found iff it is in there and moves to the front; a node that is  *)
+(* not is emitted, enters at the front and pushes out the last one when the *)
+(* row is full - which is when, and only when, the hook reports an eviction.*)
 (* A rejection here is drift between algorithm and specification, reported  *)
 (* as such and not as the violation of a listed property.                   *)
 EXTENDS FstBuilder, Json, IOUtils
@@ -24,15 +29,17 @@ EXTENDS FstBuilder, Json, IOUtils
 Rec == ndJsonDeserialize(IOEnv.TRACE)
 VARIABLES l,      \* the event being replayed
           ci,     \* the next compile event of that call
-          amap    \* real address -> specification address of emitted nodes
-tvars == <<vars, l, ci, amap>>
+          amap,   \* real address -> specification address of emitted nodes
+          mru,    \* one-row caches: specification addresses of the cached nodes, most recent first
+          geo     \* <<rows, columns>> of the cache of the current build
+tvars == <<vars, l, ci, amap, mru, geo>>
 E == Rec[l]
 
 InitState ==
     /\ stack = <<EmptyFrame(FALSE)>> /\ emitted = <<>> /\ cache = {} /\ evict = 0
     /\ last = None /\ acc = <<>> /\ hist = <<>>
     /\ pc = "idle" /\ tgt = 0 /\ pend = NONE_ADDR /\ sfx = <<>> /\ sout = 0
-TInit == InitState /\ l = 1 /\ ci = 1 /\ amap = [x \in {0} |-> 0]
+TInit == InitState /\ l = 1 /\ ci = 1 /\ amap = [x \in {0} |-> 0] /\ mru = <<>> /\ geo = <<0, 0>>
 
 \* the next recorded compile event, addresses translated
 CE == E.comp[ci]
@@ -42,6 +49,20 @@ NodeOfEvent(ce) ==
     [final |-> ce.final, fout |-> ce.fout,
      trans |-> [i \in 1..Len(ce.trans) |-> [inp |-> ce.trans[i][1], out |-> ce.trans[i][2], addr |-> amap[ce.trans[i][3]]]]]
 
+\* the replacement policy of a one-row cache (and of no cache)
+Tracked == geo[1] = 1
+Without(q, i) == [j \in 1..(Len(q) - 1) |-> IF j < i THEN q[j] ELSE q[j + 1]]
+InRow(n) == \E i \in 1..Len(mru) : emitted[mru[i] - 1] = n
+RegHit(a) ==
+    IF ~Tracked THEN geo[1] # 0 /\ UNCHANGED mru
+    ELSE /\ ~CE.evicted
+         /\ \E i \in 1..Len(mru) : mru[i] = a /\ mru' = <<a>> \o Without(mru, i)
+RegMiss(n, a) ==
+    IF ~Tracked THEN (geo[1] = 0 => ~CE.evicted) /\ UNCHANGED mru
+    ELSE /\ ~InRow(n)
+         /\ CE.evicted = (Len(mru) = geo[2])
+         /\ mru' = <<a>> \o (IF Len(mru) = geo[2] THEN Without(mru, Len(mru)) ELSE mru)
+
 \* compile(n) as the event resolved it
 CompileT(n) ==
     /\ ci <= Len(E.comp)
@@ -49,13 +70,15 @@ CompileT(n) ==
     /\ n = NodeOfEvent(CE)
     /\ ci' = ci + 1
     /\ CASE CE.kind = 0 -> /\ IsEmptyFinalNode(n) /\ CE.addr = 0
-                           /\ pend' = 0 /\ UNCHANGED <<emitted, cache, evict, amap>>
+                           /\ pend' = 0 /\ UNCHANGED <<emitted, cache, evict, amap, mru>>
          [] CE.kind = 1 -> /\ ~IsEmptyFinalNode(n)
                            /\ Known(CE.addr) /\ amap[CE.addr] >= 2
                            /\ emitted[amap[CE.addr] - 1] = n
+                           /\ RegHit(amap[CE.addr])
                            /\ pend' = amap[CE.addr] /\ UNCHANGED <<emitted, cache, evict, amap>>
          [] CE.kind = 2 -> /\ ~IsEmptyFinalNode(n)
                            /\ ~Known(CE.addr)
+                           /\ RegMiss(n, Len(emitted) + 2)
                            /\ emitted' = Append(emitted, n)
                            /\ pend' = Len(emitted) + 2
                            /\ amap' = [x \in (DOMAIN amap) \cup {CE.addr} |-> IF x = CE.addr THEN Len(emitted) + 2 ELSE amap[x]]
@@ -73,38 +96,39 @@ LNew ==
     /\ last' = None /\ acc' = <<>> /\ hist' = <<>>
     /\ pc' = "idle" /\ tgt' = 0 /\ pend' = NONE_ADDR /\ sfx' = <<>> /\ sout' = 0
     /\ l' = l + 1 /\ ci' = 1 /\ amap' = [x \in {0} |-> 0]
+    /\ mru' = <<>> /\ geo' = <<E.rows, E.cols>>
 
 \* a call begins: the verdict is the specification's, the result the code's
 LCallBegin ==
     /\ l <= Len(Rec) /\ E.ev = "LCall" /\ pc = "idle" /\ ci = 1
     /\ E.res = ResOf(Verdict(E.k), E.k)
     /\ IF Verdict(E.k) = "ok" THEN CallInsert(E.k, E.v) ELSE Reject(E.k, E.v) /\ E.comp = <<>>
-    /\ UNCHANGED <<ci, amap>>
+    /\ UNCHANGED <<ci, amap, mru, geo>>
     \* calls that leave the builder idle are complete
     /\ IF pc' = "idle" THEN E.comp = <<>> /\ l' = l + 1 ELSE l' = l
 
 LFreeze ==
     /\ l <= Len(Rec) /\ E.ev \in {"LCall", "LFinish"}
     /\ FreezeOneW(CompileT)
-    /\ UNCHANGED l
+    /\ UNCHANGED <<l, geo>>
 
 LCallEnd ==
     /\ l <= Len(Rec) /\ E.ev = "LCall" /\ pc = "freeze"
     /\ ci = Len(E.comp) + 1                 \* every recorded compile was the specification's
     /\ EndFreeze
-    /\ l' = l + 1 /\ ci' = 1 /\ UNCHANGED amap
+    /\ l' = l + 1 /\ ci' = 1 /\ UNCHANGED <<amap, mru, geo>>
 
 LFinishBegin ==
     /\ l <= Len(Rec) /\ E.ev = "LFinish" /\ pc = "idle" /\ ci = 1
     /\ E.res = [err |-> "none"]
     /\ CallFinish
-    /\ UNCHANGED <<l, ci, amap>>
+    /\ UNCHANGED <<l, ci, amap, mru, geo>>
 
 LFinishEnd ==
     /\ l <= Len(Rec) /\ E.ev = "LFinish"
     /\ EndFinishW(CompileT)
     /\ ci' = Len(E.comp) + 1                \* the root was the last compile
-    /\ UNCHANGED l
+    /\ UNCHANGED <<l, geo>>
 
 \* the finished state denotes the accepted pairs, which are the items the harness kept
 LDone ==
@@ -113,7 +137,7 @@ LDone ==
     /\ TRUE = (AccSet = { <<E.items[i][1], E.items[i][2]>> : i \in 1..Len(E.items) })
     /\ E.root = (IF pend = 0 THEN 0 ELSE CHOOSE ra \in DOMAIN amap : amap[ra] = pend)
     /\ l' = l + 1 /\ ci' = 1
-    /\ UNCHANGED <<vars, amap>>
+    /\ UNCHANGED <<vars, amap, mru, geo>>
 
 TNext == LNew \/ LCallBegin \/ LFreeze \/ LCallEnd \/ LFinishBegin \/ LFinishEnd \/ LDone
 TSpec == TInit /\ [][TNext]_tvars
